@@ -134,6 +134,8 @@ def check(ctx):
         ctx.cov["evaluations"] += 1
         st = r.get("status")
         inp = {"program": progs.source_of(p)}
+        if st == "skipped":
+            continue
         if st == "ok":
             ctx.count("outcome_document")
         elif st == "error":
